@@ -45,7 +45,7 @@ func drawBundle(rt *rapid.T, label string, weights []string) Bundle {
 		e := Entry{Seed: rapid.Uint64().Draw(rt, l+".seed")}
 		switch rapid.IntRange(0, 9).Draw(rt, l+".nameclass") {
 		case 0:
-			e.Name = rapid.SampledFrom([]string{"README", "linux_amd64.sig", "linux", "_", "linux_amd64/", "./linux_amd64"}).Draw(rt, l+".other")
+			e.Name = rapid.SampledFrom([]string{"README", "linux_amd64.sig", "linux", "_", "./linux_amd64", "linux-amd64"}).Draw(rt, l+".other")
 		case 1:
 			if i > 0 {
 				e.Name = b.Entries[i-1].Name // duplicate
@@ -390,7 +390,7 @@ func TestLayouts(t *testing.T) {
 			rec.Note("known-finding-no-longer-reproduces", knownBothClass)
 		}
 	}
-	ev.Check(t, rec, 100, 2500, func(rt *rapid.T) {
+	ev.Check(t, rec, 120, 1500, func(rt *rapid.T) {
 		l := drawLayout(rt)
 		if aborted {
 			return
